@@ -8,6 +8,26 @@ from classy_blocks.items.edges.factory import factory
 from classy_blocks.items.vertex import Vertex
 
 
+class OrderedSet(set):
+    """A set that is iterated in insertion order; plain sets of objects are
+    ordered by memory address, which differs from run to run"""
+
+    def __init__(self, items=()):
+        super().__init__()
+        self._items: list = []
+
+        for item in items:
+            self.add(item)
+
+    def add(self, item) -> None:
+        if item not in self:
+            super().add(item)
+            self._items.append(item)
+
+    def __iter__(self):
+        return iter(self._items)
+
+
 class Wire:
     """Represents two vertices that define an edge;
     supplies tools to create and compare, etc"""
@@ -27,7 +47,7 @@ class Wire:
 
         # multiple wires can be at the same spot; this list holds other
         # coincident wires
-        self.coincidents: Set[Wire] = set()
+        self.coincidents: Set[Wire] = OrderedSet()
 
     @property
     def length(self) -> float:
